@@ -87,6 +87,30 @@ func (p *pgen) dbItem() *G {
 		return gc(";", conjOf(append(append([]*G{p.dHead()}, ops(1+p.r.intn(3))...), ga("fail"))), ga("true"))
 	case 4:
 		// failure-driven loop over an open retract
+		if p.r.coin(0.5) {
+			// the retract matches every clause (fresh variable) and the body inserts at the front more than once,
+			// so that the remaining snapshot clauses move away from their call-time positions
+			pred, ar := "d0", 1
+			if p.r.coin(0.3) {
+				pred, ar = "d1", 2
+			}
+			mk := func(v int) *G {
+				if ar == 1 {
+					return gc(pred, gv(v))
+				}
+				return gc(pred, gv(v), gv(v+1))
+			}
+			var body []*G
+			for i, k := 0, 2+p.r.intn(2); i < k; i++ {
+				a := []string{"asserta", "asserta", "assertz"}[p.r.intn(3)]
+				h := p.dHead()
+				for h.S != pred {
+					h = p.dHead()
+				}
+				body = append(body, gc(a, h))
+			}
+			return gc(";", conjOf(append(append([]*G{gc("retract", mk(5))}, body...), ga("fail"))), ga("true"))
+		}
 		return gc(";", conjOf(append(append([]*G{gc("retract", p.dHead())}, ops(1+p.r.intn(2))...), ga("fail"))), ga("true"))
 	default:
 		// once-only sequence that may fail as a whole
@@ -172,7 +196,23 @@ func runC10(outDir string, seed int64, tier string) {
 					c = gc(":-", h, gc(",", bv, gc("=", gv(1), ga("c"))))
 				}
 			}
+			if r.coin(0.2) {
+				// a ground head and first alternative, variables only in a later alternative of a top-level disjunction
+				gh := gc("d0", []*G{ga("k"), gi(7), glist([]*G{ga("c")}, nil)}[r.intn(3)])
+				alts := []*G{[]*G{ga("true"), ga("fail"), gc("=", ga("a"), ga("a"))}[r.intn(3)], gc("=", gv(r.intn(4)), p.term(1))}
+				if r.coin(0.3) {
+					alts = append(alts, gc("member", gv(r.intn(4)), p.smallList()))
+				}
+				body := alts[len(alts)-1]
+				for i := len(alts) - 2; i >= 0; i-- {
+					body = gc(";", alts[i], body)
+				}
+				c = gc(":-", gh, body)
+			}
 			items = append(items, bind, gc([]string{"assertz", "asserta"}[r.intn(2)], c))
+			if r.coin(0.4) { // a binding made after the clause was added must not show through
+				items = append(items, gc("=", gv(r.intn(4)), p.term(1)))
+			}
 		}
 		// observe through clause/2, retract/1 and calls
 		items = append(items,
